@@ -21,14 +21,14 @@ var AdjustOnlyKinds = []string{"annotation", "mount", "device", "cdi", "env", "a
 var Removable = map[string]bool{"annotation": true, "mount": true, "device": true, "env": true, "args": true}
 
 var keyAlphabet = map[string][]string{
-	"annotation": {"k0", "k1", "k2", "k3"},
-	"mount":      {"/m0", "/m1", "/m0/sub", "/m2"},
-	"device":     {"/dev/d0", "/dev/d1", "/dev/d2", "/dev/d3"},
-	"cdi":        {"vendor.com/class=dev0", "vendor.com/class=dev1", "vendor.com/class=dev2"},
-	"env":        {"E0", "E1", "E2", "E3"},
-	"rlimit":     {"RLIMIT_NOFILE", "RLIMIT_CORE", "RLIMIT_AS"},
-	"hugepage":   {"2M", "1G", "64K"},
-	"unified":    {"memory.high", "cpu.weight", "io.max"},
+	"annotation": {"k0", "k1", "k2", "k3", "k4", "k5", "k6", "k7", "k8", "k9", "k10", "k11"},
+	"mount":      {"/m0", "/m1", "/m0/sub", "/m2", "/m3", "/m3/a/b", "/m4", "/m5", "/m1/x", "/m6", "/m7", "/m8"},
+	"device":     {"/dev/d0", "/dev/d1", "/dev/d2", "/dev/d3", "/dev/d4", "/dev/d5", "/dev/d6", "/dev/d7", "/dev/d8", "/dev/d9", "/dev/d10", "/dev/d11"},
+	"cdi":        {"vendor.com/class=dev0", "vendor.com/class=dev1", "vendor.com/class=dev2", "vendor.com/class=dev3", "vendor.com/class=dev4", "vendor.com/class=dev5"},
+	"env":        {"E0", "E1", "E2", "E3", "E4", "E5", "E6", "E7", "E8", "E9", "E10", "E11"},
+	"rlimit":     {"RLIMIT_NOFILE", "RLIMIT_CORE", "RLIMIT_AS", "RLIMIT_CPU", "RLIMIT_DATA", "RLIMIT_STACK"},
+	"hugepage":   {"2M", "1G", "64K", "32M", "16M", "512M"},
+	"unified":    {"memory.high", "cpu.weight", "io.max", "memory.low", "pids.max", "cpu.max"},
 }
 
 func Keys(kind string) []string {
@@ -223,7 +223,7 @@ func BaseContainer(id string, r *rand.Rand, populate float64) JContainer {
 	if populate >= 1 {
 		pick = func() bool { return true }
 	}
-	for i, k := range Keys("annotation") {
+	for i, k := range Keys("annotation")[:8] {
 		if pick() {
 			c.Annotations = append(c.Annotations, [2]string{k, fmt.Sprintf("orig-a%d", i)})
 		}
@@ -231,7 +231,7 @@ func BaseContainer(id string, r *rand.Rand, populate float64) JContainer {
 	if pick() {
 		c.Annotations = append(c.Annotations, [2]string{"zz-untouched", "keep"})
 	}
-	for i, k := range Keys("env") {
+	for i, k := range Keys("env")[:8] {
 		if pick() {
 			c.Env = append(c.Env, fmt.Sprintf("%s=orig-e%d", k, i))
 		}
@@ -239,7 +239,7 @@ func BaseContainer(id string, r *rand.Rand, populate float64) JContainer {
 	if pick() {
 		c.Env = append(c.Env, "PATH=/bin:/usr/bin", "WITH=eq=in=value")
 	}
-	for i, k := range Keys("mount") {
+	for i, k := range Keys("mount")[:8] {
 		if pick() {
 			c.Mounts = append(c.Mounts, JMount{k, "bind", fmt.Sprintf("/orig/src%d", i), []string{"ro"}})
 		}
@@ -247,7 +247,7 @@ func BaseContainer(id string, r *rand.Rand, populate float64) JContainer {
 	if pick() {
 		c.Mounts = append(c.Mounts, JMount{"/proc", "proc", "proc", []string{}})
 	}
-	for i, k := range Keys("device") {
+	for i, k := range Keys("device")[:8] {
 		if pick() {
 			c.Devices = append(c.Devices, mkDevice(k, 90, i))
 		}
@@ -285,7 +285,7 @@ func FullResources(r *rand.Rand, populate float64) *JResources {
 		}
 	}
 	if populate >= 1 || (r != nil && r.Float64() < populate) {
-		SetRes(res, Item{"hugepage", "32M"}, 80, 0)
+		SetRes(res, Item{"hugepage", "8M"}, 80, 0)
 		SetRes(res, Item{"unified", "req.unified"}, 80, 0)
 	}
 	return res
@@ -454,7 +454,7 @@ func (g *Gen) randomAdjust(who int, stray float64) *JAdjust {
 		cnt := 1 + g.R.Intn(2)
 		used := map[string]bool{}
 		for j := 0; j < cnt; j++ {
-			k := g.key(kind, who+j, stray)
+			k := g.key(kind, who+6*j, stray)
 			if used[k] {
 				continue
 			}
@@ -471,7 +471,7 @@ func (g *Gen) randomAdjust(who int, stray float64) *JAdjust {
 			}
 		}
 	}
-	if g.chance(0.2) {
+	if (who == 1 && g.chance(0.5)) || g.chance(0.08) {
 		SetAdj(a, Item{"args", ""}, who, n)
 		if g.chance(0.7) {
 			RemoveAdj(a, Item{"args", ""}, true)
@@ -505,13 +505,13 @@ func (g *Gen) randomAdjust(who int, stray float64) *JAdjust {
 		}
 	}
 	if g.chance(0.5) {
-		g.randomRes(ensureRes(&a.Resources), who, stray)
+		g.randomRes(ensureRes(&a.Resources), who, stray, nil)
 		a.HasLinux = true
 	}
-	if g.chance(stray + 0.05) {
+	if (who == 2 && g.chance(0.5)) || g.chance(stray/2) {
 		SetAdj(a, Item{"cgroupsPath", ""}, who, n)
 	}
-	if g.chance(stray + 0.05) {
+	if (who == 4 && g.chance(0.5)) || g.chance(stray/2) {
 		SetAdj(a, Item{"oomScoreAdj", ""}, who, n)
 	}
 	if g.chance(0.1) {
@@ -521,19 +521,35 @@ func (g *Gen) randomAdjust(who int, stray float64) *JAdjust {
 }
 
 // randomRes sets a few resource fields; plugin `who` mostly sticks to "its" three scalars.
-func (g *Gen) randomRes(r *JResources, who int, stray float64) {
+// `used` (may be nil) lists items already set for the same target inside this response;
+// they are avoided so that one response rarely names an item twice.
+func (g *Gen) randomRes(r *JResources, who int, stray float64, used map[string]bool) {
 	n := g.R.Intn(3)
+	take := func(k string) bool {
+		if used == nil {
+			return true
+		}
+		if used[k] && !g.chance(0.03) {
+			return false
+		}
+		used[k] = true
+		return true
+	}
 	for j, k := range ScalarKinds {
 		mine := j%NPlugins == who
-		if (mine && g.chance(0.6)) || g.chance(stray/3) {
+		if ((mine && g.chance(0.6)) || g.chance(stray/12)) && take(k) {
 			SetRes(r, Item{k, ""}, who, n)
 		}
 	}
 	if g.chance(0.3) {
-		SetRes(r, Item{"hugepage", g.key("hugepage", who, stray)}, who, n)
+		if k := g.key("hugepage", who, stray); take("hugepage/" + k) {
+			SetRes(r, Item{"hugepage", k}, who, n)
+		}
 	}
 	if g.chance(0.3) {
-		SetRes(r, Item{"unified", g.key("unified", who, stray)}, who, n)
+		if k := g.key("unified", who, stray); take("unified/" + k) {
+			SetRes(r, Item{"unified", k}, who, n)
+		}
 	}
 }
 
@@ -545,14 +561,18 @@ func (g *Gen) randomUpdates(who int, ownID string, allowOwn bool, stray float64)
 		return out
 	}
 	cnt := 1 + g.R.Intn(3)
+	used := map[string]map[string]bool{}
 	for j := 0; j < cnt; j++ {
 		id := targets[g.R.Intn(len(targets))]
 		if allowOwn && g.chance(0.4) {
 			id = ownID
 		}
+		if used[id] == nil {
+			used[id] = map[string]bool{}
+		}
 		u := NewUpdate(id, g.chance(0.2))
 		if g.chance(0.9) {
-			g.randomRes(ensureRes(&u.Resources), who, stray)
+			g.randomRes(ensureRes(&u.Resources), who, stray, used[id])
 		}
 		out = append(out, u)
 	}
